@@ -139,6 +139,13 @@ func prop(c Case, r *pbt.R) error {
 	evicted, sawSpecial, specialThenUse := false, false, false
 	for i, op := range c.Ops {
 		val := 100 + i
+		if op.Kind == opAdd && i%3 == 2 {
+			// every third step that is an Add stores the value the key already has (when it is cached): adding the same pair
+			// again refreshes the recency like any other Add
+			if j := m.find(op.Key); j >= 0 {
+				val = m.e[j].v
+			}
+		}
 		where := func() string { return fmt.Sprintf("step %d %v (cap %d, ops %v)", i, op, c.Cap, c.Ops[:i+1]) }
 		switch op.Kind {
 		case opAdd:
